@@ -416,6 +416,10 @@ class Sim:
         if self.aborting:
             return
         cur = self.current
+        if cur is None or _CURRENT is not self:
+            # an object of a finished run was kept alive by the code under test
+            # and is used again in a later run: it must not touch this kernel
+            return
         if self.atomic_tid is not None and self.atomic_tid == cur.tid:
             return
         self.steps += 1
